@@ -33,15 +33,18 @@ def hx(s):
     return s.encode().hex()
 
 
-def src(f, k, base, saveB=True):
-    """content of file f at version k (every version also changes the program's layout)"""
+def src(f, k, base, saveB=True, late=False):
+    """content of file f at version k (every version also changes the program's layout); late: the #include comes
+    BEFORE the #pragma save_binary line (the header is opened while the pragma is not yet in effect)"""
     pad = "".join("int pad_%s_%d() { return %d; }\n" % (f.lower(), i, i) for i in range(k % 3))
     if f == "A":
-        return ('#pragma save_binary\n#include "H.h"\ninherit "%sB";\n%sstring a_tag() { return "A%d"; }\n'
+        head = '#include "H.h"\n#pragma save_binary\n' if late else '#pragma save_binary\n#include "H.h"\n'
+        return (head + 'inherit "%sB";\n%sstring a_tag() { return "A%d"; }\n'
                 'mixed tags() { return ({ a_tag(), H_TAG, b_tag(), g_tag(), c17_sver() }); }\n' % (base, pad, k))
     if f == "B":
-        return ('%s#include "G.h"\n%sstring b_tag() { return "B%d"; }\nG_PAD\nstring g_tag() { return G_TAG; }\n'
-                'mixed tags() { return ({ b_tag(), g_tag() }); }\n' % ("#pragma save_binary\n" if saveB else "", pad, k))
+        head = ('#include "G.h"\n#pragma save_binary\n' if late else '#pragma save_binary\n#include "G.h"\n') if saveB else '#include "G.h"\n'
+        return (head + '%sstring b_tag() { return "B%d"; }\nG_PAD\nstring g_tag() { return G_TAG; }\n'
+                'mixed tags() { return ({ b_tag(), g_tag() }); }\n' % (pad, k))
     if f == "H":
         return '#define H_TAG "H%d"\n' % k
     if f == "G":    # a header only B includes; every version changes B's function layout
@@ -63,6 +66,7 @@ FN = {"A": "A.c", "B": "B.c", "H": "H.h", "G": "G.h"}
 def segments_of(hh, sid, private):
     """-> list of segments; a segment = op list run in one driver process. Mirrors the clock of Binaries."""
     h, saveB = hh["h"], hh["saveB"]
+    late = int("".join(ch for ch in str(sid) if ch.isdigit()) or 0) % 2 == 1      # every other scenario: includes above the pragma
     D = "c17/%s" % sid
     base = "/" + D + "/"
     ver = {"A": 1, "B": 1, "H": 1, "G": 1, "S": 1}
@@ -70,7 +74,7 @@ def segments_of(hh, sid, private):
     pre = ["call /master set_policy save_binary #1", "call /obj/bn set_base " + base]
     seg = list(pre)
     for f, t in (("A", 1), ("B", 2), ("H", 3), ("G", 0)):
-        seg += ["hostwrite %s/%s %s" % (D, FN[f], hx(src(f, 1, base, saveB))), "utime %s/%s %d" % (D, FN[f], T(t))]
+        seg += ["hostwrite %s/%s %s" % (D, FN[f], hx(src(f, 1, base, saveB, late))), "utime %s/%s %d" % (D, FN[f], T(t))]
     if private:
         seg += ["utime simul_efun.c %d" % T(4)]
     segs = []
@@ -81,7 +85,7 @@ def segments_of(hh, sid, private):
             if f == "S":
                 seg += ["hostwrite simul_efun.c %s" % hx(simul_text(ver[f])), "utime simul_efun.c %d" % T(now)]
             else:
-                seg += ["hostwrite %s/%s %s" % (D, FN[f], hx(src(f, ver[f], base, saveB))), "utime %s/%s %d" % (D, FN[f], T(now))]
+                seg += ["hostwrite %s/%s %s" % (D, FN[f], hx(src(f, ver[f], base, saveB, late))), "utime %s/%s %d" % (D, FN[f], T(now))]
             seg += ["note Edit %s %d" % (f, now)]
             now += 1
         elif a["a"] == "touch":
